@@ -19,7 +19,7 @@ def readCut (m d : Nat) (oc : String) (b : Bytes) (n : Nat) : String :=
                          har := fun _ => ([], true) }
   let p := b.take n
   if (sniff p).1 then "har" else
-  let r := readAll (gated env) p
+  let r := readAll (converted env) p
   toString r.1.length ++ ":" ++ showEnd r.2
 
 def c37Step (file : Bytes) (line : String) : Bytes × String :=
